@@ -169,7 +169,26 @@ def gen_conventional(rng, D, C, nlines, plain=False, rich=False, sections=True, 
                     line += gen_plain_value()
                     pk = "entry_plain"
                 elif vk < 0.8:
-                    line += '"' + blanks(rng, 0, 1 if rng.chance(0.3) else 0) + token(rng, '"', 0, 10, inner_blank=True, extra=ex) + blanks(rng, 0, 2 if rng.chance(0.3) else 0) + '"'
+                    qt = token(rng, '"', 0, 10, inner_blank=True, extra=ex)
+                    no_trail = False
+                    if inner_quotes and rng.chance(0.15):
+                        # double quotes INSIDE quoted text (also first or last): the text between the outermost pair is
+                        # the value as long as no comment byte is involved ('"a quoted string"', '"x ', 'say "hi" twice')
+                        qt = token(rng, C, 1, 10, inner_blank=True, extra=ex)
+                        k = rng.randrange(0, len(qt) + 1)
+                        qt = qt[:k] + '"' + qt[k:]
+                        if rng.chance(0.5):
+                            k = rng.randrange(0, len(qt) + 1)
+                            qt = qt[:k] + '"' + qt[k:]
+                        no_trail = True
+                    line += '"' + blanks(rng, 0, 1 if rng.chance(0.3) else 0) + qt + blanks(rng, 0, 2 if rng.chance(0.3) else 0) + '"'
+                    if no_trail:
+                        line += blanks(rng, 0, 2)
+                        lines.append(line)
+                        kinds.append("entry")
+                        prev = "entry"
+                        n += 1
+                        continue
                 else:
                     pass   # missing value
                 if not plain and rng.chance(0.2) and cls != "NONE":
